@@ -384,6 +384,9 @@ class Histogram1D(ObjectWithBinning, HistogramBase):
         if np.isnan(value):
             # Consistent with fill_n (dropna=True): not a number => not counted
             return None
+        if isinstance(value, np.generic):
+            # A python number (the statistics would otherwise be computed in the value's own narrow type)
+            value = value.item()
         self._coerce_dtype(type(weight))
         if self._binning.is_adaptive():
             bin_map = self._binning.force_bin_existence(value)
